@@ -5,6 +5,11 @@ ROOT = os.path.join(os.path.dirname(os.path.abspath(__file__)), "..")
 props = [json.loads(l) for l in open(os.path.join(ROOT, "properties.jsonl")) if l.strip()]
 
 CLAIMS = {
+    "C09": dict(
+        text="Lean 4 theorem Bp7.C09.now_unique: in the interleaving semantics of CreationTimestamp::now (one step for the clock read, one for the critical section under the mutex), for EVERY number of threads, EVERY schedule and EVERY sequence of clock readings (same ms, later, stepped back) the returned (time, seq) pairs are pairwise distinct — by the inductive invariant 'every pair handed out is lexicographically below the shared (last, next)'; now_sequential gives consecutive numbers / restart at 0 for non-overlapping calls. The pinned two-atomics code is modelled as well and refuted by two concrete schedules (decide). Tie to the code: real OS threads are driven through the cfg(bp7_verif) scheduling point by a baton scheduler that forces the schedule of each op line (all 70 interleavings of 2 threads x 2 calls x clock patterns, random 3-thread schedules), the returned pairs are compared with the model's; the 8-line body of now() is re-extracted and pinned on every run; a free-running 16-thread stress on the real clock is reported as supporting evidence only.",
+        note="Trusted: Lean kernel; axioms propext, Quot.sound; std::sync::Mutex provides mutual exclusion and sequentially consistent visibility (weak-memory behaviours are outside the model); fewer than 2^64 calls per clock value (wrapping_add); the scheduling hook sits between the clock read and the lock.",
+        technique="Lean 4 proof (inductive invariant over all schedules and clock functions) + schedule-forced differential correspondence check",
+        design="§6 C09"),
     "C15": dict(
         text="Lean 4 theorem Bp7.C15.json_roundtrip: for every well-formed bundle (fragment or not, every CRC type, every prior CRC state, any number of blocks) parsing the JSON value produced by to_json yields the bundle as it is after serialisation. The model runs the same visitors as the CBOR codec, driven by a sequence access without size hint (serde_json), where fix F5 lets the fragment flag decide the two fragment fields. Tie to the code: the real to_json text is compared byte for byte with the model's compact JSON text (incl. escaping of quotes, backslashes, control characters, non-ASCII names), and the real try_from(String) result with the model's.",
         note="Trusted: Lean kernel; axioms propext, Quot.sound; serde_json's text syntax (printer/parser of arrays, integers, strings) is modelled at the value-tree level and validated only by correspondence; JSON input not produced by the writer is outside the model.",
